@@ -137,17 +137,20 @@ def jsonable(x):
 
 
 L2_GROUPS = {"T2": {"C01", "C02", "C03", "C04", "C05", "C06", "C07"}, "T1": {"C09", "C10", "C11"},
-             "T3": {"C05", "C06"}, "T4": {"C01", "C04", "C05"}, "T5": {"C08"}, "T6": {"C03", "C04", "C05"}}
+             "T3": {"C05", "C06"}, "T4": {"C01", "C04", "C05"}, "T5": {"C08"}, "T6": {"C03", "C04", "C05"}, "T7": {"C15"}, "T8": {"C20"}}
 L2_SOURCE = {"T1": ("translate.py", "Tr"), "T2": ("translate.py", "Tr"), "T3": ("translate.py", "Tr"),
              "T4": ("translate_host.py", "TrHost"), "T5": ("translate_host.py", "TrHost"),
-             "T6": ("translate_loops.py", "TrLoops")}
+             "T6": ("translate_loops.py", "TrLoops"), "T7": ("translate_gen.py", "TrGen"),
+             "T8": ("translate_bound.py", "TrBound")}
 L2_WHAT = {"T1": "index arithmetic of HostVector._update_vector_idxs, Scenario.get_state_dims / get_observation_dims / "
                  "get_action_space_size and ParameterisedActionSpace nvec",
            "T2": "gate cascade of Network.perform_action (order, polarity, chance comparison)",
            "T3": "step-limit flag / reward expression of NASimEnv.step and generative_step",
            "T4": "host-level transition HostVector.perform_action (gates, access/value effects)",
            "T5": "entitlement table of State.get_observation",
-           "T6": "per-host loop bodies of Network.reset, _update_reachable and _perform_subnet_scan"}
+           "T6": "per-host loop bodies of Network.reset, _update_reachable and _perform_subnet_scan",
+           "T7": "subnet-size arithmetic of ScenarioGenerator._generate_subnets (how many hosts a generated scenario has)",
+           "T8": "accumulator expression of NASimEnv.get_score_upper_bound and the per-host terms of the two totals"}
 
 
 def level2(pid, log):
